@@ -5,6 +5,7 @@ import PowHsm.Spec.C09
 import PowHsm.Proofs.Monad
 import PowHsm.Proofs.BringUp
 import PowHsm.Proofs.BringUpServe
+import PowHsm.Proofs.BringUpServeSgx
 namespace PowHsm
 namespace Props.C09
 open Ledger Generated Dongle M
@@ -190,6 +191,24 @@ theorem serves_after_unlock {w : World} {pin : Bytes} {y0 y1 y2 o a b c x r ub s
     (hav : supports APP_VERSION (sa.toNat, sb.toNat, sc.toNat) = true) (hp : ParamsOk params) :
     (bringUp w).val = .ok "served" :=
   bringUp_serves_bootloader h hplat hpin hc1 hc2 huv hr hl hub hav hp
+
+/-- **…and the same on the SGX platform**: an onboarded SGX powHSM that reports the locked (bootloader)
+    mode, runs a supported version, echoes correctly (SGX echo), has at least two password retries left and
+    accepts the password (one SGX unlock message), and then runs a supported signer with well-formed
+    parameters, is served (`Proofs/BringUpServeSgx.lean`) -/
+theorem serves_after_unlock_sgx {w : World} {pin : Bytes} {y0 y1 y2 o a b c x r y ub sa sb sc : UInt8}
+    {er : Resp} {params : Bytes} {rest : List Resp}
+    (h : w.script = Resp.data [0x80, 1, y0, y1, y2] :: Resp.data [0x80, 2] ::
+          Resp.data [0x80, o, a, b, c] :: Resp.data [0x80, 0xA4, 0x41, 0x42, 0x43] :: Resp.data [0x80, x, r] ::
+          Resp.data [0x80, y, ub] :: er :: Resp.data [0x80, 3] ::
+          Resp.data [0x80, 1, sa, sb, sc] :: Resp.data (0x80 :: 0x11 :: 0 :: params) :: rest)
+    (hplat : w.platform = .sgx) (hpin : w.pin = some { pin := pin, needsChange := false })
+    (hc1 : w.conns.head? ≠ some false) (hc2 : (w.conns.drop 1).head? ≠ some false)
+    (huv : supports UI_VERSION (a.toNat, b.toNat, c.toNat) = true) (hr : MIN_AVAILABLE_RETRIES ≤ r.toNat)
+    (hub : ub ≠ 0)
+    (hav : supports APP_VERSION (sa.toNat, sb.toNat, sc.toNat) = true) (hp : ParamsOk params) :
+    (bringUp w).val = .ok "served" :=
+  bringUp_serves_bootloader_sgx h hplat hpin hc1 hc2 huv hr hub hav hp
 
 /-- non-vacuity: the hypotheses of `serves_after_unlock` are met by a concrete device -/
 example : ParamsOk (List.replicate 68 0 ++ [2]) ∧ supports UI_VERSION (5, 4, 1) = true ∧
